@@ -318,14 +318,20 @@ pub fn run_reconnect(args: &Args) -> (u64, u64) {
     let mut rng = StdRng::seed_from_u64(args.seed);
     let scen = read_ndjson(args.scen.as_ref().expect("--scen histories"));
     let mut bitctr = 0usize;
+    let mut base: Option<(Session, Option<Session>, &str)> = None;
     for (hi, hist) in scen.iter().enumerate() {
-        h.reset("reconnect-history");
-        let (u, p) = CREDS[hi % CREDS.len()];
-        let prm = Params { user: u, pass: p, typed_user: u, typed_pass: p, salt: None, b: None, a: None, storage: false };
-        let Some(mut s) = honest_login(&mut h, &prm) else { continue };
-        // a second, unrelated session: its client knows a different session key
-        let prm2 = Params { user: u, pass: p, typed_user: u, typed_pass: p, salt: None, b: None, a: None, storage: false };
-        let other = honest_login(&mut h, &prm2);
+        if hi % 150 == 0 || base.is_none() {
+            // a fresh login every 150 histories; each history then runs on a clone of its server
+            h.reset("reconnect-history");
+            let (u, p) = CREDS[(hi / 150) % CREDS.len()];
+            let prm = Params { user: u, pass: p, typed_user: u, typed_pass: p, salt: None, b: None, a: None, storage: false };
+            let Some(s) = honest_login(&mut h, &prm) else { continue };
+            // a second, unrelated session: its client knows a different session key
+            let other = honest_login(&mut h, &prm);
+            base = Some((s, other, u));
+        }
+        let (bs, other, u) = base.as_ref().unwrap();
+        let mut s = Session { so: h.clone_event(bs.so), server: bs.server.clone(), co: bs.co, client: bs.client.clone() };
         let uname = u.to_ascii_uppercase();
         let key = *s.server.session_key();
         let mut accepted: Vec<([u8; 16], [u8; 20])> = vec![];
@@ -375,6 +381,7 @@ pub fn run_reconnect(args: &Args) -> (u64, u64) {
                 None => break,
             }
         }
+        h.drop_event(s.so);
     }
     // long legitimate run
     let long = if args.tier == "thorough" { 1000 } else { 100 };
